@@ -24,7 +24,7 @@ KINDS = ("temp", "disc", "token", "space", "temp-after", "midbatch")
 
 
 def budget(tier):
-    return {"quick": {"runs": 5000, "wall": 170}, "thorough": {"runs": 300000, "wall": 1500}}[tier]
+    return {"quick": {"runs": 5000, "wall": 170}, "thorough": {"runs": 60000, "wall": 900}}[tier]
 
 
 def _setup(ex, case):
